@@ -164,7 +164,7 @@ def body_request(wire, sched, *, B, M=None, cl=None, chunked=False, ctype=None, 
                 # (registering routes while another thread is resolving is not what is under test)
                 SHARED['app'].route('/x/<k:int>', method=['GET', 'POST', 'PUT', 'PATCH', 'DELETE'],
                                     callback=lambda k, _h=SHARED['handlers']: _h[k]())
-            elif SHARED['cfg'] != (B, M, errors_map, cfgvia):
+            elif SHARED['cfg'][:3] != (B, M, errors_map):
                 raise AssertionError(f'twin threads disagree on the application config: {SHARED["cfg"]} vs {(B, M, errors_map, cfgvia)}')
             app = SHARED['app']
             SHARED['n'] += 1
